@@ -174,6 +174,26 @@ pub fn run(ctx: &Ctx) -> Report {
     let n = os.len();
     let st = scen_batch(ctx, os, &[Policy::P0, Policy::P1], j);
     rep.part("mtimes, xattrs, owners, flag product", st, serde_json::json!({"scenarios": n}));
+    // an unprivileged user: what root's CAP_DAC_OVERRIDE / CAP_FOWNER would paper over
+    let mut sc = vec![];
+    for d in drivers() {
+        for m in [0o644u32, 0o600, 0o444, 0o555, 0o4555, 0o400, 0o000] {
+            for ow in [false, true] {
+                for big in [false, true] {
+                    if m == 0 && !ow {
+                        // a source without read permission cannot be copied by its unprivileged owner at all
+                    }
+                    let src = if big { Entry::gen("f", 11, 5) } else { Entry::file("f", "012") };
+                    let src = src.mode(if m == 0 { 0o400 } else { m }).mtime(1_234_567_890, 123_456_789).xattr("user.a", "1").xattr("user.b", "two");
+                    let mut s = one(&format!("unpriv-{:04o}-{}-{}-{}", m, if ow { "over" } else { "fresh" }, if big { "multi" } else { "single" }, d), src, if ow { Some(Entry::file("g", "previous content of the destination").mode(0o600).mtime(1_100_000_000, 77).xattr("user.old", "stale")) } else { None }, d, &[]);
+                    s.run_as = Some((65534, 65534));
+                    sc.push(s);
+                }
+            }
+        }
+    }
+    let st = scen_batch(ctx, sc, &[Policy::P0], j);
+    rep.part("copies made by an unprivileged user (uid 65534): read-only and set-id sources with xattrs", st, serde_json::json!({}));
     // every pair of options on a small tree, fresh and populated destination: an option must not switch off
     // what another one asks for
     let st = scen_batch(ctx, flag_pairs(), &[Policy::P0], j);
